@@ -784,7 +784,7 @@ func RunC18(e *Env) (int, error) {
 		for _, s := range c.States {
 			ev.Count("outside_state."+s, 1)
 		}
-		ev.Count("fault_fired.openat_EACCES_on_decoy", int64(obs.Injected))
+		ev.Count("fault_fired.openat_EACCES", int64(obs.Injected))
 		ev.Count("process_runs", int64(len(c.States)))
 		for s, o := range obs.Outcomes {
 			ev.Distinct("outcomes", fmt.Sprintf("%s|%d|%s", s, o.Status, o.Stdout))
@@ -834,7 +834,7 @@ func RunC18(e *Env) (int, error) {
 		}
 	}
 	viol, err := e.Drive(n, fn, finish)
-	ev.Coverage["rule"] = "each run builds W/root (inputs, layers, sub-directory) and W/outside (decoy layers with recognisable content), plants one attack vector inside the root ($parent with .., absolute, wildcard, list; relative/absolute/chained file symlinks; directory symlink; symlink whose target name implies an outside parent; input spelled through ..; virtual extension; sub-directory root) or its benign twin, picks a root spelling (relative, absolute, ., .., /, sub-directory), and runs the stock bkl -r under strace once per outside state of a seeded schedule (baseline, decoys rewritten / corrupted / emptied / blanked / deleted / replaced by directories / by dangling links / extra files added / openat EACCES injected); oracle = identical (status, stdout) across states + no successful open of a regular file outside the root + attack runs fail with empty stdout + benign twins equal the run without -r; non-trivial = an attack vector was present and the process probed a path outside the root; distinct = canonical case"
+	ev.Coverage["rule"] = "each run builds W/root (inputs, layers, sub-directory) and W/outside (decoy layers with recognisable content), plants one attack vector inside the root ($parent with .., absolute, wildcard, list; relative/absolute/chained file symlinks; directory symlink; symlink whose target name implies an outside parent; input spelled through ..; virtual extension; sub-directory root; link chains of up to 12 hops; wildcard in a directory component; one $parent value expanding to a regular layer and an escaping link; a parent named -; directory links spelled with trailing slashes; nested SetRoot calls and pre-read-then-narrow histories through the library driver) or its benign twin, picks a root spelling (relative, absolute, ., .., /, sub-directory), and runs the stock bkl -r under strace once per outside state of a seeded schedule (baseline, decoys rewritten / corrupted / emptied / blanked / deleted / replaced by directories / by dangling links / extra files added / huge / openat EACCES injected on the decoys / openat EACCES injected once on every in-root link); oracle = identical (status, stdout) across states + no successful open of a regular file outside the root + attack runs fail with empty stdout + benign twins equal the run without -r; non-trivial = an attack vector was present and the process probed a path outside the root; distinct = canonical case"
 	ev.Coverage["loop_seconds"] = time.Since(t0).Seconds()
 	ev.Assumptions = []string{
 		"opening outside directories (filepath.Glob, os.Root component walks) and stat/readlink probes are not content reads and are not flagged",
